@@ -121,6 +121,8 @@ def jobs(tier, seed=0):
     res.append(dict(cc="USA", preset="nw_large_animal_350kg", options=copy.deepcopy(V["nw_large_animal_350kg"])))
     # an explicit threshold together with a shut-off schedule that carries its own default threshold
     res.append(dict(cc="ECU", preset="ms_worst_T60", options=dict(copy.deepcopy(P["ms_worst"]), MINIMUM_PERCENT_FED_BEFORE_NONHUMAN_CONSUMPTION_ALLOWED=60)))
+    # ... and a run that follows, in the same process, a run of the same country, strategy and horizon with other grass and crops
+    res.append(dict(cc="USA", preset="nw_crops_die_after_nw", options=copy.deepcopy(V["nw_crops_die"]), prelude=copy.deepcopy(P["net_nuclear_winter"])))
     for cc, name in ([("DJI", "net_baseline"), ("LSO", "net_nuclear_winter")] if tier == "quick" else
                      [("DJI", "net_baseline"), ("LSO", "net_nuclear_winter"), ("NZL", "ms_worst"), ("EST", "net_nuclear_resilient")]):
         main = dict(copy.deepcopy(P[name]), NMONTHS=60)
